@@ -98,6 +98,11 @@ func (u *Unit) mapStore(st *State, mt *types.Map, mref Term, kv, vv Value) {
 	dcomp := u.m.comp(st, dn, ArrSort(SInt, ArrSort(ks, SBool)))
 	had := Select(Select(dcomp, mref), k)
 	ln := u.mapLenName(mt)
+	u.m.noteWrite(dn, mref)
+	u.m.noteWrite(ln, mref)
+	for _, lf := range leaves(mt.Elem()) {
+		u.m.noteWrite(u.mapValName(mt, lf.Path), mref)
+	}
 	lc := u.m.comp(st, ln, SArrI)
 	st.heap[ln] = u.c.Def(ln, Store(lc, mref, Add(Select(lc, mref), Ite(had, IntLit(0), IntLit(1)))))
 	st.heap[dn] = u.c.Def(dn, Store(dcomp, mref, Store(Select(dcomp, mref), k, TTrue)))
@@ -121,6 +126,8 @@ func (u *Unit) mapDelete(st *State, mt *types.Map, mref Term, kv Value) {
 	dcomp := u.m.comp(st, dn, ArrSort(SInt, ArrSort(ks, SBool)))
 	had := And(Ne(mref, IntLit(0)), Select(Select(dcomp, mref), k))
 	ln := u.mapLenName(mt)
+	u.m.noteWrite(dn, mref)
+	u.m.noteWrite(ln, mref)
 	lc := u.m.comp(st, ln, SArrI)
 	st.heap[ln] = u.c.Def(ln, Store(lc, mref, Sub(Select(lc, mref), Ite(had, IntLit(1), IntLit(0)))))
 	st.heap[dn] = u.c.Def(dn, Ite(Eq(mref, IntLit(0)), dcomp, Store(dcomp, mref, Store(Select(dcomp, mref), k, TFalse))))
